@@ -693,6 +693,8 @@ def check_cg(ctx, c):
     must_raise("simulate(cgmap=%s) [%s]" % (bad, f), S.simulate, system, [0, 0.001], cgmap=bad)
 
 
+RULE = RULE + " " + ('Since seeded round 4 the alias-twice fault also comes as two NON-reference spellings of a field given together without the reference spelling (fields with >= 3 spellings).')
+
 FACETS = [
     Facet("dict_faults", check_dict, strategy=strat_dict, examples=(3000, 60000), shards=(16, 16)),
     Facet("ctor_faults", check_ctor, strategy=strat_ctor, examples=(3000, 40000), shards=(4, 16)),
